@@ -8,6 +8,9 @@ from ..world import default_component_names, geo_of, plate, ref_vols, ref_wells,
 # ---------------------------------------------------------------- standard labware sets (DESIGN section 4)
 
 
+from ..world import plate as plate, trough as trough  # noqa: E402,F401
+
+
 def W1():
     return [
         dict(plate("P", 2, 3, 10, 200, [[100, 100, 100], [100, 100, 100]]), np=True),
